@@ -18,6 +18,8 @@ from props import engine_explore as ee
 
 INTERVAL_MS = 1000
 TOLERANCE_MS = 100
+#: every unit the rate string accepts (`<n>/s|m|h|d`); the window of the oracle is the unit the user wrote, less 10 %
+UNIT_MS = {"s": 1000, "m": 60_000, "h": 3_600_000, "d": 86_400_000}
 
 
 class VirtualClock:
@@ -98,6 +100,8 @@ def check_item(item: dict, tier: str) -> Result:
     stats = sched.ExploreStats()
     clocks: list[VirtualClock] = []
     transport = item.get("transport", "requests")
+    unit = item.get("unit", "s")
+    interval_ms = UNIT_MS[unit]
 
     def body(sch: sched.Scheduler) -> Any:
         from schemathesis.engine import from_schema
@@ -117,7 +121,7 @@ def check_item(item: dict, tier: str) -> Result:
                 # transport is driven directly: N logical threads x k calls each, one schema (= one limiter) shared.
                 import schemathesis
 
-                schema = schemathesis.openapi.from_wsgi("/openapi.json", _wsgi_app(wsgi_log)).configure(rate_limit=f"{limit}/s")
+                schema = schemathesis.openapi.from_wsgi("/openapi.json", _wsgi_app(wsgi_log)).configure(rate_limit=f"{limit}/{unit}")
                 operation = schema["/b"]["GET"]
 
                 def worker() -> None:
@@ -133,7 +137,7 @@ def check_item(item: dict, tier: str) -> Result:
                         run.error = err
                 run.exchanges = list(wsgi_log)
                 return run
-            schema = engine.load_schema(ee.DOC_UNIT2, rate_limit=f"{limit}/s")
+            schema = engine.load_schema(ee.DOC_UNIT2, rate_limit=f"{limit}/{unit}")
             config = engine.make_config(phases=["fuzzing"], workers=item["workers"], max_examples=item["max_examples"])
             try:
                 for event in from_schema(schema, config=config).execute():
@@ -160,6 +164,8 @@ def check_item(item: dict, tier: str) -> Result:
         res.traces += 1
         current_item = item if "replay_choices" in item else {**item, "replay_choices": run.choices}
         base = {"kind_item": "rate", "transport": transport, "workers_gt1": item["workers"] > 1}
+        if unit != "s":
+            base["unit"] = unit
         detail = {"item": item, "schedule": ee.schedule_brief(run), "admissions": clock.admissions[:20], "sleeps": clock.sleeps,
                   "requests": len(r.exchanges)}
         if r.error is not None:
@@ -172,7 +178,7 @@ def check_item(item: dict, tier: str) -> Result:
             res.violation({**base, "kind": "more_than_one_limiter"}, detail, current_item)
         times = sorted(t for t, _, _ in clock.admissions)
         for i, t in enumerate(times):
-            window = [u for u in times if t - (INTERVAL_MS - TOLERANCE_MS) < u <= t]
+            window = [u for u in times if t - (interval_ms - interval_ms // 10) < u <= t]
             if len(window) > limit:
                 res.violation({**base, "kind": "rate_limit_exceeded"}, detail | {"window_end": t, "in_window": len(window), "limit": limit}, current_item)
                 break
@@ -202,4 +208,8 @@ def _items(tier: str) -> list[dict]:
         out.append({"kind": "rate", "limit": 2, "workers": workers, "max_examples": 3, "p": 1 if tier == "quick" else 2, "transport": "requests"})
     out.append({"kind": "rate", "limit": 2, "workers": 2, "max_examples": 3, "p": 1, "transport": "wsgi"})
     out.append({"kind": "rate", "limit": 1, "workers": 2, "max_examples": 2, "p": 1, "transport": "requests"})
+    # the other units of the rate string (one worker: the unit is what is judged, the interleavings are covered above)
+    for unit in ("m", "h", "d"):
+        out.append({"kind": "rate", "limit": 2, "workers": 1, "max_examples": 3, "p": 0, "transport": "requests", "unit": unit})
+    out.append({"kind": "rate", "limit": 2, "workers": 2, "max_examples": 2, "p": 0, "transport": "wsgi", "unit": "h"})
     return out
